@@ -14,8 +14,6 @@ from indep import snapedit_oracle as oracle
 GATED = {
     'snapmod-move-bank:none->N': 'a --move with a destination bank prefix but no source bank prefix ignores the destination prefix '
                                  '(treats both addresses as 64K addresses)',
-    'state-name-upper-case:szx-ignored': 'state attribute names are matched case-insensitively everywhere (spec.lower()) except in the guards of '
-                                         'SZX.set_registers_and_state: upper-case FFFD=/AY[n]=/ISSUE2= are applied to .z80 and silently ignored for .szx',
 }
 
 
